@@ -21,6 +21,13 @@ Definition out_eqb (a b : out) : bool :=
   | _, _ => false
   end.
 
+Definition wreply_eqb (a b : wreply) : bool :=
+  match a, b with
+  | WLock x, WLock y => reply_eqb x y
+  | WExec x, WExec y => Bool.eqb x y
+  | _, _ => false
+  end.
+
 Inductive case :=
 | CStep (o : option token) (a : action) (t : option token) (obs : option (option token * reply))
     (* one lock request handled in lock state o; obs = None: no reply was produced (the handler raised) *)
@@ -32,9 +39,12 @@ Inductive case :=
        remembered by proxy 0, 1, ... at the end *)
 | CProg (cfg : list ctxinst) (ops : list pop) (outs : list out)
     (* a client-program history with automatic tokens; cfg = context instance of every proxy *)
-| CTok (calls : list ctxinst) (obs : list N).
+| CTok (calls : list ctxinst) (obs : list N)
     (* make_unique_token called once per entry (on that instance); obs = canonical ids of the results:
        equal ids <-> equal descriptors.  The equality pattern must be the model's. *)
+| CWork (l : list (request * bool)) (obs : list wreply) (final_owner : option token) (final_log : list N).
+    (* requests pushed through the real _RpcThread.run loop; the bool says whether the stub context delivered
+       the reply (false: send_message raised QMI_MessageDeliveryException); obs = replies handed to the context *)
 
 (* tokens the model generates for a sequence of make_unique_token calls *)
 Fixpoint gen_seq (ctr : N -> N) (calls : list ctxinst) : list token :=
@@ -56,7 +66,8 @@ Inductive mres :=
 | MGate (ran : bool)
 | MHist (outs : list out) (o : option token) (lg : list N) (pt : list (option token))
 | MProg (outs : list out)
-| MTok (l : list token).
+| MTok (l : list token)
+| MWork (replies : list wreply) (o : option token) (lg : list N).
 
 Definition model_out (c : case) : mres :=
   match c with
@@ -66,6 +77,8 @@ Definition model_out (c : case) : mres :=
       MHist (snd r) (owner (fst r)) (log (fst r)) (map (ptok (fst r)) (seq 0 (length fp)))
   | CProg cfg ops _ => MProg (snd (prun gen_token (cfg_of cfg) init_pst ops))
   | CTok calls _ => MTok (gen_seq (fun _ => 0%N) calls)
+  | CWork l _ _ _ => let r := worker_run init_wst l in
+      MWork (map fst (snd r)) (w_owner (fst r)) (w_log (fst r))
   end.
 
 Definition check_case (c : case) : bool :=
@@ -82,6 +95,10 @@ Definition check_case (c : case) : bool :=
       && list_eqb otoken_eqb (map (ptok (fst r)) (seq 0 (length fp))) fp
   | CProg cfg ops outs => list_eqb out_eqb (snd (prun gen_token (cfg_of cfg) init_pst ops)) outs
   | CTok calls obs => pattern_eqb (gen_seq (fun _ => 0%N) calls) obs
+  | CWork l obs fo fl =>
+      let r := worker_run init_wst l in
+      list_eqb wreply_eqb (map fst (snd r)) obs && otoken_eqb (w_owner (fst r)) fo
+      && list_eqb N.eqb (w_log (fst r)) fl
   end.
 
 (* same checks against the faithful transcription of the CURRENT tree (used only to explain a
